@@ -66,9 +66,14 @@ def breakpoints(f, upto):
     return out          # the (unfinished) last run is dropped: beyond it the model makes no prediction
 
 
-def measure():
+def measure(strict=True):
+    """strict=False: no shape assertion (the translator has refused the tree already; the check still looks for a failing input)"""
     g = sys.getsizeof
-    base = sizes.measure()
+    base = sizes.measure(strict)
+
+    def need(cond, what):
+        if strict:
+            assert cond, what
     from yaql.language import utils as yutils
     none_sz, bool_sz = g(None), g(True)
     assert g(False) == bool_sz
@@ -85,7 +90,7 @@ def measure():
         return d
     for x in [0, 1, -1, 7, 255, 2 ** 29, 2 ** 30 - 1, 2 ** 30, -2 ** 30, 2 ** 59, 2 ** 60 - 1, 2 ** 60, 2 ** 61, 10 ** 30, -10 ** 40,
               2 ** 300, 3 ** 500]:
-        assert g(x) == int_base + int_digit * ndigits(x), ('int', x)
+        need(g(x) == int_base + int_digit * ndigits(x), ('int', x))
 
     def by_insertion(keys):
         d = {}
@@ -108,15 +113,15 @@ def measure():
         d = by_insertion(ks)
         # the ways the fragment builds dicts: FrozenDict(generator of pairs), FrozenDict(dict), dict(FrozenDict) + update,
         # keys of other non-string types, tuple keys
-        assert g(yutils.FrozenDict((k, 1) for k in ks)) == fd_over + g(d), ('FrozenDict(pairs)', n)
-        assert g(yutils.FrozenDict(d)) == fd_over + g(d), ('FrozenDict(dict)', n)
+        need(g(yutils.FrozenDict((k, 1) for k in ks)) == fd_over + g(d), ('FrozenDict(pairs)', n))
+        need(g(yutils.FrozenDict(d)) == fd_over + g(d), ('FrozenDict(dict)', n))
         half = yutils.FrozenDict((k, 1) for k in ks[:n // 2])
         rest = yutils.FrozenDict((k, 2) for k in ks[n // 3:])
         m = dict(half)
         m.update(rest)
-        assert g(m) == g(d) and g(yutils.FrozenDict(m)) == fd_over + g(d), ('combine_dicts', n)
-        assert g(by_insertion((i, 'x') for i in range(n))) == g(by_insertion(range(n))), ('tuple keys', n)
-        assert g(by_insertion([None, True, 2, (3,)][:n] + list(range(4, n)))) == g(by_insertion(range(n))), ('mixed non-str', n)
+        need(g(m) == g(d) and g(yutils.FrozenDict(m)) == fd_over + g(d), ('combine_dicts', n))
+        need(g(by_insertion((i, 'x') for i in range(n))) == g(by_insertion(range(n))), ('tuple keys', n))
+        need(g(by_insertion([None, True, 2, (3,)][:n] + list(range(4, n)))) == g(by_insertion(range(n))), ('mixed non-str', n))
         # updating existing keys does not change the table
         d2 = by_insertion(ks)
         for k in ks:
@@ -130,7 +135,7 @@ def measure():
     list_grow = breakpoints(lst, MAX_LIST)
     objs = observe_objects()
     for must in ('map', 'filter', 'generator', 'islice', 'OrderingIterable', 'Context'):
-        assert must in objs, ('the battery no longer reaches a %s object' % must, objs)
+        need(must in objs, ('the battery no longer reaches a %s object' % must, objs))
     rule_sz = g(yutils.MappingRule(None, None))
     obj_max = max(list(objs.values()) + [g(yutils.NO_VALUE)])
     obj_min = min(list(objs.values()) + [g(yutils.NO_VALUE)])
